@@ -1,6 +1,6 @@
 //! C05 – revoked state is never used and state is never revoked early.
 use crate::checks::c01::{two_node_world, Ct};
-use crate::oracles::{chan_infos, CommitmentOracle, NoErrorOracle, RevocationOracle};
+use crate::oracles::{chan_infos, CommitmentOracle, NoErrorOracle, RevocationOracle, TxValidityOracle};
 use crate::runner::{fill_model_checking_evidence, run_scenarios, Scenario};
 use crate::sys::{Deviations, Op, Oracle, WorldSys};
 use crate::world::{ClaimPolicy, Obs, Wire, World};
@@ -82,6 +82,7 @@ pub fn build(s: &C05Scn) -> WorldSys {
 		sys.oracles.push(Box::new(CommitmentOracle::new(infos)));
 	}
 	sys.oracles.push(Box::new(rev));
+	sys.oracles.push(Box::new(TxValidityOracle::new()));
 	sys.w.obs_cursor = sys.w.obs.len();
 	sys
 }
